@@ -42,6 +42,15 @@ NAME_CLASSES = {
     },
     # user-given internal names that look like the names TreeBuilder generates for unnamed nodes
     "edgelike": {"n1": "edge.0", "n2": "edge.0.1", "n3": "edge.1", "n4": "edge.2", "n5": "edge.0.2", "n6": "edge.1.1"},
+    # unusual but legal names: adjacent double / single quotes, only digits, leading digit, '#', '|', glob
+    # characters, braces, a very long dotted name, non-ascii, backslash, percent, angle brackets
+    "odd": {
+        "a": 'a""x', "b": "b''y", "c": "123", "d": "d#1|2", "e": "e.1.2.3.4.5.6.7.8.9.10.11.12.13.14.15.16.17.18.19.20",
+        "f": "x*?{f}", "g": "ñandú·ß",
+        "n1": 'K12 ""wild""', "n2": "7", "n3": "3n\\m", "n4": '""', "n5": "a%20&=b", "n6": "<n6>/@!~`^$",
+    },
+    # a name that begins with a single quote (and does not end with one)
+    "leadquote": {"a": "'a", "n1": "'n1x"},
     # the bare word TreeBuilder counts unnamed nodes under, as a tip name
     "reserved": {"b": "edge"},
     # internal names left to the newick parser (the tree is parsed from the text without internal labels)
@@ -52,7 +61,7 @@ NAME_CLASSES = {
 TWIN_CLASSES = {"edgelike", "auto"}
 HAS_BLANK = {"soft", "blank"}  # classes for which reading with underscore_unmunge=False is documented to differ
 # name classes exercised on the name-writing/reading calls only (the other calls never look at the text of a name)
-RT_ONLY_CLASSES = {"blank"}
+RT_ONLY_CLASSES = {"blank", "odd", "leadquote"}
 RT_ACTS = {"Make", "NewickRT", "NewickNamesRT", "NewickDefaultRT", "DndRT", "JsonRT", "RichDictRT"}
 # the reserved tip name: judged on trees fresh from make_tree only (one call after Make), on the round
 # trips and on every call that rebuilds the tree through TreeBuilder
